@@ -16,7 +16,7 @@ var documentedPanics = map[string]struct {
 	n      int
 	reason string
 }{
-	"newSchemaValidator":                  {1, "documented: 'Panics if the provided schema is invalid' (unresolvable references), excluded by C06"},
+	"newSchemaValidator":                  {1, "documented: 'Panics if the provided schema is invalid' (unresolvable references): excluded by C06; for C07 its reachability is decided by EXPAND-FIRST"},
 	"(*SpecValidator).Validate":           {1, "json.Unmarshal of doc.Raw(): the loader already unmarshalled these bytes"},
 	"(*SpecValidator).validateParameters": {2, "shape of the embedded Swagger meta-schema (#/definitions/parameter present, gob-clonable): constant data shipped with the package"},
 	"(*typeValidator).schemaInfoForType":  {1, "reflect.ValueOf(x).Kind() is never Interface for a value obtained from an interface{}"},
@@ -255,4 +255,86 @@ func poolTypeOK(p *core.Prog, pi *poolInfo, f *ssa.Function, ta *ssa.TypeAssert)
 		}
 	}
 	return okRedeem
+}
+
+// ExpandFirst — C07: the documented panic of newSchemaValidator (schema whose $ref cannot be expanded)
+// must be unreachable from spec validation. Every call of newSchemaValidator in the spec-validation
+// files passes either the Swagger meta-schema (the validator's own schema or a clone of one of its
+// definitions — constant data whose references resolve), a schema of a response that ExpandResponse just
+// expanded successfully, or an object on which a dominating spec.ExpandSchema call succeeded.
+func ExpandFirst(p *core.Prog, r *core.Report) {
+	const rule = "EXPAND-FIRST"
+	files := map[string]bool{"spec.go": true, "default_validator.go": true, "example_validator.go": true, "helpers.go": true}
+	n := 0
+	for _, f := range p.Funcs {
+		if !files[p.File(f.Pos())] {
+			continue
+		}
+		fn := core.FuncName(f)
+		core.EachInstr(f, func(i ssa.Instruction) {
+			c, ok := i.(*ssa.Call)
+			if !ok {
+				return
+			}
+			g := core.StaticCallee(c)
+			if g == nil || core.FuncName(g) != "newSchemaValidator" {
+				return
+			}
+			n++
+			arg := c.Call.Args[0]
+			key := fn + ":newSchemaValidator(" + opDesc(arg, 0) + ")"
+			// (1) meta-schema
+			if d := opDesc(arg, 0); strings.HasPrefix(d, "recv.schema") {
+				r.OK(rule, key, p.Pos(c.Pos()), "the validator's own Swagger meta-schema")
+				return
+			}
+			if al, isAl := arg.(*ssa.Alloc); isAl {
+				meta := false
+				for _, ref := range core.Refs(al) {
+					if st, isSt := ref.(*ssa.Store); isSt && st.Addr == ssa.Value(al) {
+						if ex, isEx := st.Val.(*ssa.Extract); isEx {
+							if cc, isC := ex.Tuple.(*ssa.Call); isC {
+								if cg := core.StaticCallee(cc); cg != nil && cg.Name() == "deepCloneSchema" && strings.Contains(opDesc(cc.Call.Args[0], 0), "recv.schema") {
+									meta = true
+								}
+							}
+						}
+					}
+				}
+				if meta {
+					r.OK(rule, key, p.Pos(c.Pos()), "a clone of a definition of the Swagger meta-schema")
+					return
+				}
+			}
+			// (2) schema of a response expanded successfully
+			if strings.Contains(opDesc(arg, 0), "expandResponseRef(") {
+				for _, cd := range core.CondsAt(c.Block()) {
+					if call, isC := cd.Value.(*ssa.Call); isC && cd.Sense {
+						if h := core.StaticCallee(call); h != nil && core.FuncName(h) == "(*Result).IsValid" {
+							r.OK(rule, key, p.Pos(c.Pos()), "schema of a response that spec.ExpandResponse expanded without error")
+							return
+						}
+					}
+				}
+			}
+			// (3) a dominating successful ExpandSchema on the same object
+			okExp := false
+			core.EachInstr(f, func(j ssa.Instruction) {
+				ec, isC := j.(*ssa.Call)
+				if !isC || !core.InstrDominates(ec, c) {
+					return
+				}
+				if eg := core.StaticCallee(ec); eg != nil && core.QualName(eg) == "spec.ExpandSchema" && ec.Call.Args[0] == arg && errIsNilAt(c.Block(), ec) {
+					okExp = true
+				}
+			})
+			if okExp {
+				r.OK(rule, key, p.Pos(c.Pos()), "dominated by a successful spec.ExpandSchema of the same object")
+				return
+			}
+			r.Bad(rule, key, p.Pos(c.Pos()), "a schema taken from the validated document is handed to newSchemaValidator, which panics when a $ref in it (or, lazily, below it) cannot be resolved; nothing on this path established that its references resolve (reachable with continue-on-errors after the references rule failed)")
+		})
+	}
+	r.Count("spec_schema_validator_sites", n)
+	r.Floor("spec_schema_validator_sites", 5)
 }
